@@ -351,6 +351,49 @@ def entry_points(ctx, P):
     ctx.floor("C18.4 R-ORDER", 4)
 
 
+def tiling(ctx, P):
+    """the auto-aligned front end cuts the input into (unaligned head, aligned words, tail): on every path the pieces handed
+    to the validators are contiguous, start at the input and add up to exactly its length - no byte is skipped or read twice"""
+    from ..core.pathmem import PathEval, a_add, a_scale, a_fmt
+    f = P.fn("utf8_checker.c:cjet_is_word_sequence_valid_auto_alligned")
+    VAL = {"cjet_is_byte_sequence_valid": 1}
+    for nm in ("cjet_is_word_sequence_valid", "cjet_is_word64_sequence_valid"):
+        g = P.fn("utf8_checker.c:" + nm)
+        ty = g.params[1]["ty"]
+        VAL[nm] = {"i32*": 4, "i64*": 8}.get(ty)
+        if VAL[nm] is None:
+            raise AnalysisBroken("%s: word pointer type %s" % (nm, ty))
+    seq = ({("param", 1, f.params[1]["name"]): 1}, 0)
+    total = ({("param", 2, f.params[2]["name"]): 1}, 0)
+    bad = None
+    n = 0
+    for p in P.paths(f, loop_iters=1):
+        pe = PathEval(P, f, Q.PathView(P, f, p))
+        if pe.infeasible:
+            continue
+        segs = [(e.data["args"][1], a_scale(e.data["args"][2], VAL[e.data["callee"]]), e) for e in pe.events
+                if e.kind == "call" and e.data["callee"] in VAL]
+        if not segs:
+            continue
+        n += 1
+        cur = seq
+        summ = ({}, 0)
+        ok = True
+        for (ptr, nbytes, e) in segs:
+            if not pe.equal(ptr, cur):
+                ok = False
+            cur = a_add(cur, nbytes)
+            summ = a_add(summ, nbytes)
+        if not pe.equal(summ, total):
+            ok = False
+        if not ok:
+            bad = (pe, segs, summ)
+    ctx.ob("C18.4 R-CURSOR", f, "segments-tile-the-input", bad is None and n >= 3,
+           "the pieces handed to the validators do not tile the input: %s, sum %s, expected start %s and length %s" %
+           ("; ".join("(%s, %s bytes)" % (a_fmt(p_), a_fmt(b_)) for p_, b_, _ in bad[1]), a_fmt(bad[2]), a_fmt(seq), a_fmt(total)) if bad else
+           "%d paths" % n, witness=bad[0].view.witness() if bad else None)
+
+
 def run(ctx):
     for cfg in ctx.configs(["default"]):
         P = cfg.P
@@ -359,4 +402,5 @@ def run(ctx):
         ctx.note("extracted automaton: %d reachable states" % len(impl_states))
         fastpaths(ctx, P, trans, start)
         entry_points(ctx, P)
+        tiling(ctx, P)
     ctx.floor("C18.2 R-PRODUCT", 4)
